@@ -24,7 +24,7 @@ def main():
     dst = os.path.join(ROOT, 'seeded', sid)
     os.makedirs(dst, exist_ok=True)
     for f in ('patch.diff', 'demo.py', 'notes.md', 'confirm.txt'):
-        if os.path.exists(os.path.join(src, f)):
+        if os.path.exists(os.path.join(src, f)) and os.path.abspath(src) != os.path.abspath(dst):
             shutil.copy(os.path.join(src, f), os.path.join(dst, f))
     wt = '/tmp/seedrun-' + sid
     out = '/tmp/seedout-' + sid
